@@ -120,7 +120,11 @@ namespace parmcb {
         typename boost::property_map<Graph, boost::edge_weight_t>::type weight = get(boost::edge_weight, graph);
 
         while (fgets(buffer, sizeof(buffer), fp) != NULL) {
-            buffer[strlen(buffer) - 1] = '\0'; // eat the newline
+            // eat the newline; the last line of a file may come without one
+            std::size_t length = strlen(buffer);
+            if (length > 0 && buffer[length - 1] == '\n') {
+                buffer[length - 1] = '\0';
+            }
             if (buffer[0] == 'c' || buffer[0] == '#') {
                 continue;
             } else if (buffer[0] == 'p') {
